@@ -8,7 +8,7 @@
 (3) reward laws on histories where every arm is observed: +c shifts greedy / UCB1 expectations by c and leaves
     Softmax unchanged; rewards * 2^k scale LinGreedy(0) expectations by 2^k exactly.
 
-As built: Extras: a deliberate warm-start tie (identical feature vectors of trained arms) in a third of the relabelling cases without neighbourhood policy.
+As built: Extras: a deliberate warm-start tie (identical feature vectors of trained arms) in a third of the relabelling cases without neighbourhood policy. Relabelling target 'closefloat' (distinct float labels agreeing in 6-15 digits); reward shifts down to -1e6 in the Softmax / greedy laws.
 """
 from mon import env  # noqa: F401
 import copy
